@@ -370,7 +370,7 @@ impl Check for C03 {
     }
     fn dedup_bits(&self, tier: Tier) -> u32 {
         if tier.is_thorough() {
-            29
+            30
         } else {
             26
         }
